@@ -172,9 +172,10 @@ def _run_job(job):
     os.makedirs(wd, exist_ok=True)
     out = os.path.join(wd, "o.pqr")
     open(os.path.join(wd, "in.pdb"), "w").write(job["text"])
-    r = runner.run(job["args"] + [os.path.join(wd, "in.pdb"), out], groups={"stages", "torsion", "atoms"}, out_path=out)
+    r = runner.run(job["args"] + [os.path.join(wd, "in.pdb"), out], groups={"stages", "torsion", "atoms", "debump"}, out_path=out)
     tr = r["tracer"]
-    res = {"ok": r["ok"], "exc": r["exc_type"], "turns": [], "final": None, "pipe": None}
+    res = {"ok": r["ok"], "exc": r["exc_type"], "turns": [], "final": None, "pipe": None,
+           "debump": [c for c in getattr(tr, "debump_calls", []) if c["ev"]][:400]}
     if r["ok"]:
         for e in tr.events:
             if e.get("e") != "turn":
@@ -332,6 +333,43 @@ def run(ctx):
         p["id"] = len(pipes) + 1
         p["what"] = what
         pipes.append(p)
+    # the debumper's search (Debump.tla): every recorded call of debump_residue must be a behaviour of the search model.
+    # Not a listed property: a rejected trace is drift, reported in the evidence only.
+    dcalls = []
+    for j, o in zip(jobs, rres):
+        for c in o.get("debump", []):
+            dcalls.append({"id": len(dcalls) + 1, "ev": c["ev"], "what": f"{j['what']}: {c['res']} in {c['stage']}"})
+    if dcalls:
+        core.use_repo()
+        from pdb2pqr import config as pcfg
+        # the binding is shown on every run: a copy of a real trace with one angle shifted by a scan step must be rejected
+        import copy
+        probe = next((c for c in dcalls if sum(1 for e in c["ev"] if e["e"] == "set") >= 3), None)
+        if probe is not None:
+            bad = copy.deepcopy(probe)
+            sets = [e for e in bad["ev"] if e["e"] == "set"]
+            sets[len(sets) // 2]["a"] += 5000
+            bad["id"], bad["what"] = len(dcalls) + 1, "corrupted copy"
+            dcalls.append(bad)
+        dtf = core.write_json(os.path.join(ctx.work, "debump.json"), [{"id": c["id"], "ev": c["ev"]} for c in dcalls])
+        dcfg = os.path.join(ctx.work, "debump.cfg")
+        open(dcfg, "w").write(f"SPECIFICATION TSpec\nCONSTANTS\n  Steps = {int(pcfg.DEBUMP_ANGLE_STEPS)}\n  StepSize = {int(round(pcfg.DEBUMP_ANGLE_STEP_SIZE * 1000))}\n"
+                              f"  TestCount = {int(pcfg.DEBUMP_ANGLE_TEST_COUNT)}\nINVARIANT Progress\nPOSTCONDITION Verdicts\n")
+        rd = core.run_tlc("DebumpTrace", dcfg, ctx.work, workers=1, env={"TRACE_FILE": dtf}, timeout=1800, heap="6g")
+        core.need_ok(rd, "DebumpTrace")
+        ctx.add_tlc(rd, "debump search conformance (drift only)")
+        dv = {v[1]: v for v in rd.printed if isinstance(v, list) and v and v[0] == "T"}
+        if probe is not None:
+            bad = dcalls.pop()
+            if bad["id"] not in dv or dv[bad["id"]][2]:
+                raise core.MachineryError("DebumpTrace accepted a corrupted trace")
+        rej = [c for c in dcalls if c["id"] in dv and not dv[c["id"]][2]]
+        ctx.extra["debump_search"] = {"calls": len(dcalls), "accepted_by_Debump_tla": len(dcalls) - len(rej), "rejected": len(rej),
+                                      "invariant_violated": rd.invariant or ""}
+        for c in rej[:5]:
+            k = dv[c["id"]][3]
+            ctx.drift.append({"debump_search_rejected": c["what"], "at_event": k, "events_around": c["ev"][max(0, k - 3):k + 2]})
+        ctx.traces += len(dcalls)
     ctx.extra.update(topology_cases=ntopo, post_run_moved_set_cases=npost, torsion_events=nturn, runs=len(jobs), runs_returning_to_a_changed_dihedral=multi)
     tf = core.write_json(os.path.join(ctx.work, "tr.json"), [dict({k: v for k, v in t.items() if k != "what"}, routine=t.get("routine", "")) for t in traces])
     cfg = os.path.join(ctx.work, "m.cfg")
